@@ -124,7 +124,10 @@ or an invented delivery.  The harness runs one thread at a time, so a publicatio
 synchronisation point (printed `p` without `P`) happened entirely at the position of its `p`. -/
 
 inductive JEv where
-  | sB (o : Nat) | sR (o : Nat) | pB (t e : Nat) | pE (t e : Nat) | d (o e : Nat) | x (o : Nat) | other
+  | sB (o : Nat) | sR (o : Nat) | pB (t e : Nat) | pE (t e : Nat) | d (o e : Nat) | x (o : Nat)
+  /-- `W t`: a poll by thread `t` began; `V t`: its private observer is subscribed (the poll has reached its wait);
+      `w t`: the poll returned -/
+  | wB (t : Nat) | wV (t : Nat) | wR (t : Nat) | other
 deriving DecidableEq
 
 def parseJEv (tok : String) : Option JEv :=
@@ -138,8 +141,9 @@ def parseJEv (tok : String) : Option JEv :=
   | "d", [some _, some o, some e] => some (.d o e)
   | "x", [some _, some o] => some (.x o)
   | "n", [some _] => some .other
-  | "W", [some _] => some .other
-  | "w", [some _, some _] => some .other
+  | "W", [some t] => some (.wB t)
+  | "V", [some t] => some (.wV t)
+  | "w", [some t, some _] => some (.wR t)
   | _, _ => none
 
 def countIn (h : List JEv) (lo hi : Nat) (p : JEv → Bool) : Nat :=
@@ -186,14 +190,35 @@ def judgeSingle (h : List JEv) : Option String :=
         else if total > beg then some "dup"
         else none
 
-def judge (kind : String) (hist : String) : String :=
+/-- A poll that never returned although the run is over (no thread can move): once the poll's private observer is
+    subscribed (`V t`), a publication that BEGINS afterwards and completes must make the poll return ("a blocking wait
+    for the next event returns once such an event has been published").  Plain subject: any such publication; single-shot:
+    the emission may even have happened earlier. -/
+def judgePoll (kind : String) (h : List JEv) : Option String :=
+  let n := h.length
+  (List.range n).findSome? fun v => match (h[v]? : Option JEv) with
+    | some (JEv.wV t) =>
+      let returned := (List.range n).any fun m => v < m && h[m]? == some (JEv.wR t)
+      let published := (List.range n).any fun i => match (h[i]? : Option JEv) with
+        | some (JEv.pB t' e) => (kind == "single" || v < i) && (List.range n).any fun j => i < j && h[j]? == some (JEv.pE t' e)
+        | _ => false
+      if !returned && published then some "poll-missed" else none
+    | _ => none
+
+def judge (kind : String) (hist : String) (fin : String) : String :=
   let toks := if hist == "-" then [] else hist.splitOn ","
   match toks.mapM parseJEv with
   | none => "unparsed"
   | some h =>
     match (if kind == "single" then judgeSingle h else judgeSubject h) with
     | some v => "viol:" ++ v
-    | none => "ok"
+    | none =>
+      -- only when the run has come to rest with threads still waiting (`wait`) or blocked (`dead`)
+      if fin == "wait" || fin == "dead" then
+        match judgePoll kind h with
+        | some v => "viol:" ++ v
+        | none => "ok"
+      else "ok"
 
 def algoOf (n : Nat) : Option Algo := if n == 0 then some .pinned else if n == 1 then some .repaired else none
 
@@ -203,7 +228,8 @@ def runReq (a : Algo) (kd : Kind) (behs : List Beh) (progs : List (List Op)) (sc
 def handle (op : String) (args : List String) : Option String :=
   match op, args with
   | "c13.algo", [] => some "*\t*"
-  | "c13.judge", [kind, hist] => some (judge kind hist ++ "\t*")
+  | "c13.judge", [kind, hist] => some (judge kind hist "fin" ++ "\t*")
+  | "c13.judge", [kind, hist, fin] => some (judge kind hist fin ++ "\t*")
   -- forced-mode runs have no model counterpart: the history observed on the real code is judged by `c13.judge`
   | "c13.force", [_, _, _, _] => some "*\t*"
   | "c13.explore", [algo, kind, what, variant] =>
